@@ -110,7 +110,7 @@ class Gen:
             elif self.rng.random() < 0.1:
                 # land exactly on the limit *as computed by subtraction*, deliberately unverified: whether the
                 # float sum/difference then rounds onto or one ulp past the limit is for the library to decide
-                v = h if self.regime != "centi" else snap_down(h, self.regime)
+                v = h if self.regime == "free" else snap_down(h, self.regime)
             else:
                 v = snap_down(self.typical(h), self.regime)
                 for _ in range(6):
@@ -321,7 +321,7 @@ class Gen:
             if allzero or h <= 0 or rng.random() < 0.12:
                 v = 0.0
             elif rng.random() < 0.08:
-                v = h if self.regime != "centi" else snap_down(h, self.regime)  # the float headroom, unverified (see fit_seq)
+                v = h if self.regime == "free" else snap_down(h, self.regime)  # the float headroom, unverified (see fit_seq)
             else:
                 v = snap_down(self.typical(h) * (1 - 1e-12 if self.regime != "quarter" else 1.0), self.regime)
                 if self.regime != "quarter":
